@@ -271,6 +271,37 @@ ClauseHolds(i) ==
   \/ /\ ClauseKind(i) \in {"lock", "excluded"}
      /\ \E x \in ClauseLits(i) : x[1] # 0 /\ SolvOfVar(x[1]) \in Range(p.soft)
 
+\* Completeness of the encoding (refinement of LazyCdcl!Encode): when a solution is
+\* returned, every clause the rules demand for an installed solvable (and the
+\* root) is in the database - its requirements, its constrains pairs, and the lock
+\* and exclusion clauses of every package it mentions.  A missing clause means the
+\* solver merely did not happen to need it on this input.
+VarOfSolv(x) == IF x = 0 THEN 0
+                ELSE IF \E i \in DOMAIN wb.vsolv : wb.vsolv[i][2] = x
+                     THEN wb.vsolv[CHOOSE i \in DOMAIN wb.vsolv : wb.vsolv[i][2] = x][1] ELSE -1
+ClauseRecs == {Rec[wb.cls[i]] : i \in {j \in DOMAIN wb.cls : Rec[wb.cls[j]].ev = "clause"}}
+MissingClauses(S) ==
+  LET CR == ClauseRecs
+      X == S \cup {0}
+      reqMissingAll == UNION {{<<"requires", x, ReqsOf(u, p, x)[i]>> :
+                              i \in {j \in DOMAIN ReqsOf(u, p, x) :
+                                        ~\E c \in CR : c.kind = "requires" /\ c.a = VarOfSolv(x) /\ c.vs = ReqsOf(u, p, x)[j]}}
+                           : x \in X}
+      conMissing == UNION {UNION {{<<"constrains", x, y>> :
+                              y \in {z \in Range(NonMatch(u, ConsOf(u, p, x)[i])) :
+                                        ~\E c \in CR : c.kind = "constrains" /\ c.a = VarOfSolv(x) /\ SolvOfVar(c.b) = z}}
+                                  : i \in DOMAIN ConsOf(u, p, x)} : x \in X}
+      names == UNION {Mentioned(u, p, x) : x \in X}
+      lockMissing == UNION {{<<"lock", n, y>> :
+                              y \in {z \in Range(Cands(u, n)) \ {u.pkg[n].locked} :
+                                        u.pkg[n].locked # 0 /\ ~\E c \in CR : c.kind = "lock" /\ SolvOfVar(c.b) = z}}
+                            : n \in {m \in names : u.pkg[m].exists}}
+      exclMissing == UNION {{<<"excluded", n, y>> :
+                              y \in {z \in Range(u.pkg[n].excluded) :
+                                        ~\E c \in CR : c.kind = "excluded" /\ SolvOfVar(c.a) = z}}
+                            : n \in {m \in names : u.pkg[m].exists}}
+  IN reqMissingAll \cup conMissing \cup lockMissing \cup exclMissing
+
 ResultSat(r) ==
   LET S    == Range(r.sol)
       X    == Range(p.soft)
@@ -298,6 +329,7 @@ ResultSat(r) ==
       THEN /\ Chk("C01", \A i \in DOMAIN wb.cls : ClauseHolds(i), "C01_DbNotSatisfied",
                     {i \in DOMAIN wb.cls : ~ClauseHolds(i)})
            /\ Chk("C05", SolvedVarsTrue = S, "C05_SolutionNotTrail", <<r.sol, SolvedVarsTrue>>)
+           /\ Chk("C01", MissingClauses(S) = {}, "C01_EncodingIncomplete", MissingClauses(S))
       ELSE TRUE)
   /\ Cover(<<"sat">> \o (IF cf /\ p.soft = <<>> THEN <<"conflictfree">> ELSE <<>>)
                      \o (IF dbf THEN <<"directbest">> ELSE <<>>)
